@@ -136,10 +136,12 @@ TOK_LEX = '''static int ref_lex(const uint8_t* in, unsigned n, unsigned pos, uns
 }
 '''
 
-ANS_LEX = """static uint16_t ANS_IDX[LEN ? LEN : 1]; static uint8_t ANS_LEN[LEN ? LEN : 1];
+ANS_LEX = """#define REF_LEX_SP 1
+static uint32_t ref_lex_line, ref_lex_col;
+static uint16_t ANS_IDX[LEN ? LEN : 1]; static uint8_t ANS_LEN[LEN ? LEN : 1];
 static uint32_t ref_lexhash, ref_lexcalls;
 static int ref_lex(const uint8_t* in, unsigned n, unsigned pos, unsigned* term, unsigned* len) {
-  ref_lexcalls++; ref_lexhash = ((ref_lexhash << 5) | (ref_lexhash >> 27)) + pos + 0x9e3779b9u;
+  ref_lexcalls++; ref_lexhash = ((ref_lexhash << 5) | (ref_lexhash >> 27)) + pos + 0x9e3779b9u + (ref_lex_line << 8) + (ref_lex_col << 16);
   if (ANS_IDX[pos] == 0xffffu) return 0;
   *term = ANS_IDX[pos]; *len = ANS_LEN[pos]; return 1;
 }
